@@ -108,6 +108,15 @@ func execVersion(vec J, out *Writer) {
 			rec["parsed"] = J{"some": false, "sign": 0}
 		}
 		out.Put(rec)
+	case "cmp_text":
+		// two version TEXTS: parse both (decimal epochs with leading zeros, surrounding blanks ...) and compare
+		pa, pb := obsParse(S(vec["ta"])), obsParse(S(vec["tb"]))
+		rec := J{"ev": "cmp_text", "in": vec, "ok_a": pa.ok, "ok_b": pb.ok, "sign": 0, "sign_ba": 0}
+		if pa.ok && pb.ok {
+			rec["sign"] = sign(version.Compare(pa.v, pb.v))
+			rec["sign_ba"] = sign(version.Compare(pb.v, pa.v))
+		}
+		out.Put(rec)
 	case "triple":
 		vs := L(vec["vs"])
 		vv := make([]version.Version, len(vs))
@@ -369,7 +378,7 @@ func genC03(seed int64, tier string, out *Writer) {
 	if tier == "thorough" {
 		n = 150000
 	}
-	near := " \t\n:-_/!aZ0~+.\x00\xc2\xa0é"
+	near := " \t\n:-_/!aZ0~+.\x00\xc2\xa0é`@[{^,;=*" // incl. the neighbours of the letter and digit ranges: / : @ [ ` {
 	for _, s := range realVersions {
 		out.Put(J{"k": "parse", "s": B(s)})
 	}
